@@ -127,6 +127,23 @@ def run_case(case, rec):
             exp_add["times"] = collections.Counter(gens.rowkey(np.array([ct[j]])) for j in ti[:case["sel_t"]])
             exp_add["omega"] = collections.Counter(gens.rowkey(cx[j]) for j in xi[:case["sel_x"]])
             ranking = len(flat) > kmax
+        # the scores the step ranks its candidates with (reported by the guarded hook) must order the candidates as
+        # their squared residuals do - for every selected size, not only the configured one (monotone rescalings pass;
+        # pairs closer than 1e-6 relative are not judged)
+        if "mse_on_s" in ev:
+            ref_scores = (M.reshape(-1) if pk == "nonstatio" else r)
+            ms = np.asarray(ev["mse_on_s"], dtype=float).reshape(-1)
+            if ms.shape == ref_scores.shape and len(ms) >= 2:
+                o = np.argsort(-ref_scores)
+                a, b_ = ref_scores[o], ms[o]
+                clear = (a[:-1] - a[1:]) > 1e-6 * np.maximum(a[:-1], 1e-30)
+                rec.count("candidate_orderings_compared")
+                bad = clear & (b_[:-1] < b_[1:] - 1e-9 * np.maximum(np.abs(b_[:-1]), 1e-30))
+                if np.any(bad):
+                    j = int(np.argmax(bad))
+                    rec.violation(sig + "/candidates-not-ranked-by-squared-residual",
+                                  "%s: step %d ranks a candidate with squared residual %r below one with %r (scores %r < %r)"
+                                  % (label, step_no, a[j], a[j + 1], b_[j], b_[j + 1]))
         if tie:
             rec.count("steps_skipped_near_tie")
             return
